@@ -1,26 +1,27 @@
-\* thorough: 2 clients x 1 post, 1 kill, 1 snapshot, 1 timeout
+\* vacuity for the membership actions: 2 initial members, join, part, kill, snapshot, leader-change budgets 1 (1 client x 1 post; pauses and timeouts are covered by Cluster_cov.cfg), run with -coverage 1
 \* Exhaustive, idealised duplicate test (F7 = FALSE): every invariant must hold.
 \* Nodes are model values and symmetric; the history variable is outside the VIEW.
 SPECIFICATION Spec
 CONSTANTS
   Nodes = {n1, n2, n3}
-  Clients = {1, 2}
+  Clients = {1}
   MaxCmid = 1
   MaxKills = 1
   MaxSnaps = 1
-  MaxLeaderChanges = 0
+  MaxLeaderChanges = 1
   MaxPauses = 0
-  MaxFails = 1
+  MaxFails = 0
   F7 = FALSE
-  InitSize = 3
-  MaxJoins = 0
-  MaxParts = 0
-  Trailing = 99
+  InitSize = 2
+  MaxJoins = 1
+  MaxParts = 1
+  Trailing = 0
 VIEW view
 SYMMETRY NodeSymmetry
 INVARIANTS
   TypeOK
   LeaderComplete
+  CommittedOnMajority
   AckedDurable
   AppliedPrefixAgreement
   StreamsAgree
@@ -30,4 +31,6 @@ INVARIANTS
 PROPERTIES
   LogGrows
   AckOnlyAfterApply
+  SingleServerChanges
+  RestoredStateIsPrefix
 CHECK_DEADLOCK FALSE
